@@ -1,4 +1,4 @@
-\* C08 delivery model: two publishers (SameOrder / PublisherOrder across publishers)
+\* what-if: subCh / unsubCh buffered although BufferSize = 0 (Subscribe returns before the registration): ExactlyOnceInv must be violated
 SPECIFICATION Spec
 CONSTANTS
   Pubs = {"p1", "p2"}
@@ -6,7 +6,7 @@ CONSTANTS
   Subs = {"s1", "s2"}
   W = 1
   Parallel = FALSE
-  Backend = "queue"
+  Backend = "chan"
   Cap = 0
   Buf = 0
   StatsIds = {}
@@ -14,7 +14,7 @@ CONSTANTS
   StopIds = {}
   AutoRead = FALSE
   Toggles = 2
-  AllowUnsub = TRUE
+  AllowUnsub = FALSE
   AllowParentCancel = FALSE
   CtxCancels = 0
   Redundant = 0
@@ -22,6 +22,6 @@ CONSTANTS
   StatsBuffered = TRUE
   RecvWaitsFirst = FALSE
   KF_UnsubWindow = TRUE
-  CtlBuf = 0
-INVARIANTS TypeOK OnlyPublishedInv NoDuplicateInv ExactlyOnceInv OrderInv NoStall CtxRespected StopReturns CleanShutdown MutexFree
+  CtlBuf = 1
+INVARIANTS TypeOK ExactlyOnceInv
 CHECK_DEADLOCK FALSE
